@@ -38,11 +38,11 @@ NAMES_OK = ["a", "b", "c", "q1", "q2", "g", "g1", "r", "r1", "age", "meta", "dat
             "r_count", "audit", "name", "label", "__version__", "entity", "x-y", "x.y", "_z", "é"]
 NAMES_BAD = ["1a", "a b", "$a", "a/b", "", "-a", "a:b:c", ":a", "a:", "${a}", ".", "a b", "a&b", "<a>", "a:b"]
 REFS = ["${a}", "${b}", "${q1}", "${g}", "${r}", "${nosuch}", "${a", "${a b}", "${${a}}", "${}", "${ a }", "$a",
-        "${last-saved#a}", "${last-saved#nosuch}", "${a}${b}", "${A}", "${meta}", "${instanceID}"]
+        "${last-saved#a}", "${last-saved#nosuch}", "${a}${b}", "${A}", "${meta}", "${instanceID}", "${data}"]
 EXPRS = [
     ". > 0", "true()", "1 + 1", "", "now()", "today()", "${a} > 3", "${b} = 'x'", "concat(${a}, 'y')",
     "selected(${q1}, 'a')", "instance('l1')/root/item[name=${a}]/label", "pulldata('f', 'a', 'b', ${a})",
-    "../a", "/data/a", "position(..)", "indexed-repeat(${a}, ${r}, 1)", "count(${r})", "${nosuch} + 1",
+    "../a", "/data/a", "position(..)", "indexed-repeat(${a}, ${r}, 1)", "count(${r})", "${nosuch} + 1", "${data} != ''",
     "'unterminated", "((", "a b c", "1 div 0", "if(${a} = 1, 'a', 'b')", "once(random())", "x", "-1", "42", "3.5",
     "${a} and ${b}", "search('f')", "search('f', 'matches', 'a', ${a})", "${a", "${}", "${a b}",
 ]
